@@ -313,6 +313,10 @@ func init() {
 	reg("(time.Time).Format", func(fr *frame, a []value) value { return "<time>" })
 	reg("(time.Duration).String", func(fr *frame, a []value) value { return "<duration>" })
 
+	reg("reflect.DeepEqual", func(fr *frame, a []value) value {
+		return fromBoolTerm(fr.ex.deepEq(nil, a[0], a[1], 0))
+	})
+
 	// ------------------------------------------------------------- errors / fmt
 	reg("errors.New", func(fr *frame, a []value) value { return fr.ex.mkError(a[0]) })
 	reg("fmt.Errorf", func(fr *frame, a []value) value {
@@ -445,6 +449,24 @@ func init() {
 	reg("strings.ReplaceAll", func(fr *frame, a []value) value {
 		return strings.ReplaceAll(strArg(fr, a[0]), strArg(fr, a[1]), strArg(fr, a[2]))
 	})
+	// bytes.ReplaceAll / bytes.Replace on an encoded body: the text of a JSON blob whose
+	// leaves are concrete is materialised; when nothing is replaced the blob is kept
+	bytesReplace := func(fr *frame, a []value, n int) value {
+		src, _ := a[0].([]value)
+		txt, ok := bytesToString(fr, src).(string)
+		o, ok2 := bytesToString(fr, a[1].([]value)).(string)
+		nw, ok3 := bytesToString(fr, a[2].([]value)).(string)
+		if !ok || !ok2 || !ok3 {
+			fr.ex.unsupported("bytes.Replace on symbolic text")
+		}
+		res := strings.Replace(txt, o, nw, n)
+		if res == txt {
+			return a[0]
+		}
+		return stringToBytes(res)
+	}
+	reg("bytes.ReplaceAll", func(fr *frame, a []value) value { return bytesReplace(fr, a, -1) })
+	reg("bytes.Replace", func(fr *frame, a []value) value { return bytesReplace(fr, a, int(asInt64(a[3]))) })
 	reg("strings.Repeat", func(fr *frame, a []value) value { return strings.Repeat(strArg(fr, a[0]), int(asInt64(a[1]))) })
 	reg("strings.EqualFold", func(fr *frame, a []value) value { return strings.EqualFold(strArg(fr, a[0]), strArg(fr, a[1])) })
 	reg("strings.Count", func(fr *frame, a []value) value { return strings.Count(strArg(fr, a[0]), strArg(fr, a[1])) })
@@ -780,6 +802,24 @@ func (ex *exec) syncMap(p *value) *gmap {
 	m := makeMap(types.NewInterfaceType(nil, nil))
 	ex.syncMaps[p] = m
 	return m
+}
+
+// isPreemptFn: the function was named with vf.PreemptIn, exactly or by a prefix
+// pattern ending in '*' (all methods of a type, so that a helper added to that
+// type later is covered as well).
+func (ex *exec) isPreemptFn(fn string) bool {
+	if v, ok := ex.preemptFns[fn]; ok {
+		return v
+	}
+	hit := false
+	for pat := range ex.preemptFns {
+		if n := len(pat); n > 0 && pat[n-1] == '*' && len(fn) >= n-1 && fn[:n-1] == pat[:n-1] {
+			hit = true
+			break
+		}
+	}
+	ex.preemptFns[fn] = hit
+	return hit
 }
 
 func (ex *exec) cfgPreemptFn(name string) {
